@@ -14,6 +14,41 @@ class StepDone(PathEnd):
     pass
 
 
+_RS_MUTATORS = ('push', 'pop', 'clear', 'reserve', 'remove', 'insert', 'extend', 'truncate', 'append', 'drain', 'retain', 'swap', 'sort', 'reverse', 'resize', 'push_str',
+                'extend_from_slice', 'shrink_to_fit', 'take', 'next', 'replace', 'get_mut', 'iter_mut', 'last_mut', 'first_mut', 'as_mut', 'borrow_mut', 'set', 'entry')
+
+
+def _written_names(n, out=None):
+    """names a block of Rust writes through: assigned, borrowed mutably, or receiver of a mutating method"""
+    out = set() if out is None else out
+    if isinstance(n, dict):
+        k = n.get('k')
+        def base(x):
+            while isinstance(x, dict) and x.get('k') in ('field', 'index', 'unary', 'mcall') and x.get('k') != 'path':
+                x = x.get('e') or x.get('recv') or x.get('base') or x.get('o')
+            if isinstance(x, dict) and x.get('k') == 'path' and len(x.get('segs', [])) == 1:
+                return x['segs'][0]
+            return None
+        if k == 'assign':
+            b = base(n['l'])
+            if b:
+                out.add(b)
+        elif k == 'mcall' and n.get('m') in _RS_MUTATORS:
+            b = base(n['recv'])
+            if b:
+                out.add(b)
+        elif k == 'unary' and str(n.get('op', '')).replace(' ', '') in ('&mut',):
+            b = base(n.get('e'))
+            if b:
+                out.add(b)
+        for v in n.values():
+            _written_names(v, out)
+    elif isinstance(n, (list, tuple)):
+        for v in n:
+            _written_names(v, out)
+    return out
+
+
 class MainLoop:
     """Loop contract of `while let Some(instr) = iterator.next()`: the step from an ARBITRARY state on opcode `op`."""
 
@@ -41,6 +76,16 @@ class MainLoop:
         it = interp.deref(env.get('iterator'))
         if not isinstance(it, RIter):
             raise Unsupported('iterator is not a slice iterator')
+        # loop-carried locals: a variable declared BEFORE the loop and written inside it holds an arbitrary value at the head of an arbitrary iteration
+        # (the machine state and the iterator are covered by the invariant above; anything else is havocked)
+        for name in sorted(_written_names(e['body'])):
+            if name in ('stack', 'memory', 'claims', 'iterator') or env.lookup(name) is None:
+                continue
+            cur = interp.deref(env.get(name))
+            if isinstance(cur, SV) and cur.kind in ('idl', 'mlist', 'int', 'bool'):
+                env.set_existing(name, ctx.fresh(cur.kind, f'carried_{name}'))
+            else:
+                raise Unsupported(f'local `{name}` is declared before the instruction loop and written inside it (loop-carried state of a kind the contract cannot havoc: {cur!r})')
         it.rest = SV(IDL.mk('icons', code if not isinstance(code, int) else z3.IntVal(code), rest1.t), 'idl')
         ok, S2, M2, C2, r2 = (sm.step(self.op, self.phase, S.t, Mm.t, C.t, rest1.t, self.quantifier) if self.op else
                               (z3.BoolVal(False), S.t, Mm.t, C.t, rest1.t))
@@ -216,6 +261,7 @@ class TakeLoop:
         r0, S0 = it.rest.t, cur['stack'].t
         ids0, pl0 = interp.as_idl(cur['ids']), (cur['plugs'].t if isinstance(cur['plugs'], SV) else MLs.mk('lnil'))
         ctx.oblige('loop-entry:ids and plugs start empty', z3.And(ids0 == IDL.mk('inil'), pl0 == MLs.mk('lnil')), kind='loop')
+        ctx.assume(z3.And(ids0 == IDL.mk('inil'), pl0 == MLs.mk('lnil')))       # asserted just above: what follows may rely on it
         whole = sm.take_acc(nn, r0, S0, ids0, pl0)
         k = ctx.fresh('int', 'k').t
         fresh = {'ids': ctx.fresh('idl', 'ids'), 'plugs': ctx.fresh('mlist', 'plugs'), 'stack': ctx.fresh('stack', 'stack')}
